@@ -11,6 +11,7 @@ from mc.run import Stats, explore
 
 ASSUME = c03.ASSUME[:2] + [
     "frame clauses allow 1 s for the rounding of reported times",
+    "frame-overlap: the portions of all tasks sharing a slot of a resource must fit disjointly inside their reported intervals (interval feasibility, 1 s per task tolerance)",
     "milestone clause: forward milestones without own/inherited pin must sit at max(pred.end|start + gap); gap is calendar time",
 ]
 
@@ -71,6 +72,10 @@ def evaluate(item):
         vv, n = oracles.c06_milestones(spec, obs, sc)
         v += vv
         nms += n
+        # the reported intervals must leave room for the booked work: if the portions of the tasks sharing a slot cannot
+        # be laid out inside their reported [start, end], some report does not frame its work
+        vv, _sh = oracles.c01_ledger(obs, sc)
+        v += [("frame-overlap", d) for c, d in vv if c == "overlap"]
     r["v"] = common.dedup(v)
     L = obs["gran"]
     r["nt"] = any(abs(q - L) > 1e-6 for res, slots in obs["ledger"].get(0, {}).items() for s, lst in slots.items() for _t, q in lst) or nms > 0
@@ -92,6 +97,7 @@ def sample(item):
 def universe(tier):
     yield from chains(tier)
     yield from c03.universe(tier)
+    yield from c03.team_blockers(tier)
 
 
 def run(ctx):
